@@ -152,8 +152,8 @@ impl Check for C01 {
     }
     fn cases(&self, tier: Tier) -> u64 {
         match tier {
-            Tier::Quick => 120_000,
-            Tier::Thorough => 5_000_000,
+            Tier::Quick => 200_000,
+            Tier::Thorough => 8_000_000,
         }
     }
     fn one_case(&self, data: &[u8], ctx: &mut Ctx) -> Outcome {
